@@ -29,6 +29,7 @@ type Item struct {
 	Next   bool
 	GH     bool   `json:",omitempty"` // group has its own middleware
 	Again  string `json:",omitempty"` // mount: the same sub-app is mounted a second time under this prefix (later sibling)
+	Multi  bool   `json:",omitempty"` // mount: both prefixes are given in one call, app.Use([]string{Path, Again}, sub)
 	SubCfg int    `json:",omitempty"` // mount: the sub-app's own routing config: 0 = same as the parent, 1..4 = CaseSensitive/StrictRouting combinations (the serving app's config is what counts)
 	Items  []Item `json:",omitempty"`
 }
@@ -106,9 +107,13 @@ func build(r fiber.Router, items []Item, o *obs, mode string, cfg fiber.Config, 
 				}
 				sub := fiber.New(scfg)
 				build(sub, it.Items, o, mode, cfg, false)
-				r.Use(it.Path, sub)
-				if it.Again != "" {
-					r.Use(it.Again, sub)
+				if it.Again != "" && it.Multi {
+					r.Use([]string{it.Path, it.Again}, sub) // the list form of Use: one call, both prefixes
+				} else {
+					r.Use(it.Path, sub)
+					if it.Again != "" {
+						r.Use(it.Again, sub)
+					}
 				}
 			}
 		}
@@ -314,6 +319,7 @@ func (g *gen) items(depth int, full string) []Item {
 				if !g.used[fp2] {
 					g.used[fp2] = true
 					it.Again = p2
+					it.Multi = rapid.Bool().Draw(t, "multi")
 				}
 			}
 			out = append(out, it)
